@@ -5,7 +5,7 @@
    closed real expression (sqrt, ln of rationals) is enclosed by Interval. *)
 From Coq Require Import Reals List ZArith QArith Qreals.
 From Interval Require Import Tactic.
-From PA Require Import model.Poly model.AbelPoly.
+From PA Require Import model.Poly model.AbelPoly model.SPoly.
 
 Ltac poly_vm :=
   unfold poly_abelQ_at;
@@ -20,3 +20,16 @@ Ltac poly_vm :=
        Q2R Qnum Qden].
 
 Ltac evalQ := poly_vm; interval with (i_prec 80).
+
+(* SPolynomial(...).abel at one pixel: per-column preparation and max(r, r_min) by vm_compute
+   (VM cast), the remaining closed expression (sqrt, ln, atan of rationals) by Interval *)
+Ltac sp_eval :=
+  unfold sp_abelQ_at;
+  match goal with |- context [sp_prepareQ ?a ?b ?c] =>
+    let t := constr:(sp_prepareQ a b c) in let v := eval vm_compute in t in
+    let E := fresh in assert (E : t = v) by (vm_cast_no_check (eq_refl v)); rewrite E; clear E end;
+  match goal with |- context [Qmax ?a ?b] =>
+    let t := constr:(Qmax a b) in let v := eval vm_compute in t in
+    let E := fresh in assert (E : t = v) by (vm_cast_no_check (eq_refl v)); rewrite E; clear E end;
+  cbv -[Rplus Rmult Rminus Rdiv Ropp Rinv IZR sqrt ln atan Rabs Rle pow INR];
+  interval with (i_prec 80).
